@@ -3,6 +3,7 @@ package netsim
 import (
 	"fmt"
 	"os"
+	"strings"
 	"time"
 
 	"github.com/kardiachain/go-kardia/types"
@@ -199,6 +200,9 @@ func AttackCase(c *core.Case, prop string) {
 	}
 	ctx := &AttackCtx{Net: net, Adv: NewAdversary(net), B: cfg.B}
 	reached := at.Run(ctx)
+	if os.Getenv("VERIF_DEBUG_ATTACK") != "" {
+		fmt.Fprintf(os.Stderr, "attack %s cfg %v reached=%v\n  %s\n", at.Name, cfg, reached, strings.Join(ctx.Log, "\n  "))
+	}
 	run.Eval(1)
 	base := net.MaxHeight()
 	res := net.RunSync(base+2, uint32(20*len(cfg.Powers)), nil)
